@@ -120,7 +120,12 @@ Record ncase := {
   n_inner_pos : list arg;
   n_inner_kw : list (Z * arg);
   n_inner_tbl : list Z;
-  n_neg : bool                          (* the condition is not_(outer(...)) *)
+  n_neg : bool;                         (* the condition is not_(outer(...)) *)
+  n_mode : Z    (* how often the inner call OBJECT g is used, with F = outer(.., g, ..):
+                   0: [not_] F                              -- as operand only
+                   1: and_(g, [not_] F)                     -- as condition and as operand
+                   2: or_(and_(g, F), and_(not_(g), true))  -- in both or_ branches, once under not_, and as operand
+                   Model and Spec do not see object identity: the Spec is the plain reading of the condition. *)
 }.
 
 Definition bound_kwargs (params : list Z) (pos : list arg) (kw : list (Z * arg)) : list (Z * arg) :=
@@ -140,12 +145,18 @@ Definition spec_nested (n : ncase) : sx :=
                     let icall := call_of (w_attr o) ikw rho in
                     let v := body_of i icall in
                     let ocall := call_of (w_attr o) okw (rho ++ [(nest_var, v)]) in
-                    (SL (map SZ (seen i icall)), SL (map SZ (seen o ocall)),
-                     xorb (n_neg n) (truthy_z (body_of o ocall)), row_of o rho))
+                    let tg := truthy_z v in let tf := truthy_z (body_of o ocall) in
+                    (SL (map SZ (seen i icall)),
+                     (* the outer call: always in mode 0, only where g holds otherwise (and_ short-circuits) *)
+                     (if Z.eqb (n_mode n) 0 || tg then [SL (map SZ (seen o ocall))] else []),
+                     (if Z.eqb (n_mode n) 0 then xorb (n_neg n) tf
+                      else if Z.eqb (n_mode n) 1 then tg && xorb (n_neg n) tf
+                      else (tg && tf) || negb tg),
+                     row_of o rho))
                  (cands (w_dom o) [] vars) in
   SL [SZ 1; SZ 0;
       SL (sx_set (map (fun r => fst (fst (fst r))) per));          (* the inner calls, as a set *)
-      SL (sx_sort (map (fun r => snd (fst (fst r))) per));         (* one outer call per candidate binding *)
+      SL (sx_sort (flat_map (fun r => snd (fst (fst r))) per));    (* one outer call per candidate binding that reaches it *)
       SL (sx_sort (map (fun r => snd r) (filter (fun r => snd (fst r)) per)))].
 
 Definition canon_nested (o : sx) : sx :=
